@@ -134,6 +134,19 @@ def run(rep: common.Report, tier: str, seed: int, replay=None) -> int:
     run_case(rep, rng, 203, hdev, {**hcfg, "terminal_psi": None}, texts, recs_all)      # same mesh, contacts now unpinned
     hdev.make_mesh(max_edge_length=0.9, smooth=0)
     run_case(rep, rng, 204, hdev, {**hcfg, "terminal_psi": 1.0}, texts, recs_all)
+    # extremal positions: a mesh numbered so that the LAST site and site 0 are terminal sites (Triangle puts interior Steiner
+    # points last; a mesh read from elsewhere, or renumbered, need not)
+    from tdgl.finite_volume.mesh import Mesh
+    xdev = meshes.make_device(rng, holes=0, terminals=2, max_edge_length=1.3)
+    xinfo = xdev.terminal_info()
+    nS = len(xdev.mesh.sites)
+    perm = np.arange(nS)
+    for a_, b_ in ((nS - 1, int(xinfo[0].site_indices[0])), (0, int(xinfo[1].site_indices[-1]))):
+        perm[[a_, b_]] = perm[[b_, a_]]
+    inv = np.argsort(perm)
+    xdev.mesh = Mesh.from_triangulation(np.asarray(xdev.mesh.sites)[perm], inv[np.asarray(xdev.mesh.elements)])
+    for k_, tp_ in enumerate((0.0, 0.5)):
+        run_case(rep, rng, 210 + k_, xdev, {**hcfg, "terminal_psi": tp_}, texts, recs_all)
     outs = common.run_model_shards("c06_step", texts, jobs=8)
     ndis = 0
     for (rc, out), (r, case) in zip(outs, recs_all):
